@@ -634,6 +634,29 @@ def tryRemoveSlice (lhs : Val) (lo hi : Option Val) : Out (Val × Val) :=
     (subRange xs p.1 p.2).map fun mid => (.list mid, .list (xs.take p.1.toNat ++ xs.drop p.2.toNat))
   | _ => .throw
 
+/-- eval.rs `modify_existing_index(lhs, indexes, f)` restricted to list paths (the dictionary and
+struct arms are other properties'): `f` returns (its result, the new value of the addressed
+place); the result is (f's result, the new value of `lhs`).  Reached by `pop x[i]…` and
+`remove x[i]…[j]`. -/
+def modPath (lhs : Val) (ixs : List Ix) (f : Val → Out (Val × Val)) : Out (Val × Val) :=
+  match ixs with
+  | [] => f lhs
+  | fi :: rest =>
+    let lhs' : Out Val :=
+      match lhs with
+      | .stream xs => .ok (.list xs)
+      | .rep _ => .throw
+      | .cyc _ _ => .throw
+      | v => .ok v
+    lhs'.bind fun lhs =>
+    match lhs, fi with
+    | .list xs, .index i =>
+      (pythonicIndex xs.length i).bind fun k =>
+      (elemAt xs k).bind fun old =>
+      (modPath old rest f).bind fun p =>
+      (setAt xs k p.2).map fun xs' => (p.1, .list xs')
+    | _, _ => .throw                     -- "can't modify index"
+
 /-- lib.rs `|..` on a list: `a |.. [k, v]` -/
 def updateAt (a k v : Val) : Out Val :=
   match a with
